@@ -204,6 +204,86 @@ func runC08(c *kit.Ctx) {
 
 	// ---- R4 ---------------------------------------------------------------
 	c.StartRule("R4", "isRegionOverlap is the canonical strict range intersection", 1)
+	overlapSearch(c)
+
+	// ---- R5 ---------------------------------------------------------------
+	c.StartRule("R5", "the three discoverers treat (overlaps, replaced) alike", 3)
+	discoverersDetachOverlaps(c)
+}
+
+// discoverersDetachOverlaps: shared by C08.R5 and C01.R2 (a replaced region must lose its connection,
+// or requests already holding it are sent under the dead region's name).
+func discoverersDetachOverlaps(c *kit.Ctx) {
+	for _, nm := range []string{"findRegion", "findAllRegions", "establishRegion"} {
+		fn := c.Anchor("", "client", nm)
+		if fn == nil {
+			continue
+		}
+		for _, call := range kit.Calls(fn, kit.M("", "*keyRegionCache", "put")) {
+			ov := kit.ExtractOf(call.Value(), 0)
+			repl := kit.ExtractOf(call.Value(), 1)
+			newReg := call.Common().Args[1]
+			if ov == nil || repl == nil {
+				c.Bad(fn, "put-results", call.Pos(), "the results of regions.put are ignored", "")
+				continue
+			}
+			// every overlap goes to clients.del on the replaced edge
+			delOK := false
+			for _, d := range kit.Calls(fn, kit.M("", "*clientRegionCache", "del")) {
+				if l, ok := kit.Root(d.Common().Args[1]).(*ssa.UnOp); ok {
+					if ia, ok := l.X.(*ssa.IndexAddr); ok && ia.X == ov {
+						if _, isR := rangeOfIndex(ia.Index); isR {
+							for _, f := range kit.FactsAt(d.Block()) {
+								if f.Cond == repl && f.Pol {
+									delOK = true
+								}
+							}
+						}
+					}
+				}
+			}
+			c.Check(delOK, fn, "overlaps-detached", call.Pos(), "on replaced, every overlap is removed from the connection cache", "evicted regions are not removed from the connection cache (their connection keeps them in its region set)")
+			// on !replaced the new region is not established
+			var iff *ssa.If
+			for _, r := range kit.Referrers(repl) {
+				if i, ok := r.(*ssa.If); ok {
+					iff = i
+				}
+			}
+			good := iff != nil
+			if good {
+				e := kit.PathFromBlock(kit.SuccOnFalse(iff), kit.PathQuery{Target: func(x ssa.Instruction) bool {
+					switch y := x.(type) {
+					case *ssa.Go:
+						return strings.HasSuffix(kit.CalleeName(y), "establishRegion") && kit.Same(y.Call.Args[1], newReg)
+					case *ssa.Call:
+						n := kit.CalleeName(y)
+						return (n == hrpcRI+"SetClient" || n == hrpcRC+"Dial") && false
+					}
+					return false
+				}, SkipEdge: func(from, to *ssa.BasicBlock) bool {
+					// do not wrap around a loop back into the replaced edge
+					return to == iff.Block() || to.Dominates(iff.Block())
+				}})
+				good = e == nil
+			}
+			c.Check(good, fn, "not-replaced-not-used", call.Pos(), "when the cache kept its own regions the looked-up region is not established", "a region that lost against the cache is still established: two region objects for overlapping ranges are live")
+		}
+	}
+}
+
+// overlapSearch: isRegionOverlap is the strict range intersection and getOverlaps finds every cached
+// region intersecting the new one. Shared by C08.R4 and C01.R5 (a stale overlapping region left in
+// the cache is what a later lookup returns for keys that now belong to its replacement).
+func overlapSearch(c *kit.Ctx) {
+	p := c.P
+	_ = p
+	iro := p.Func("", "", "isRegionOverlap")
+	getOv := p.Func("", "keyRegionCache", "getOverlaps")
+	if iro == nil || getOv == nil {
+		c.Unk(nil, "overlap-search", token.NoPos, "isRegionOverlap / keyRegionCache.getOverlaps not found")
+		return
+	}
 	{
 		A, B := ssa.Value(iro.Params[0]), ssa.Value(iro.Params[1])
 		getter := func(v ssa.Value, m string) (ssa.Value, bool) {
@@ -331,64 +411,5 @@ func runC08(c *kit.Ctx) {
 			}
 		}
 		c.Check(cont, getOv, "predecessor-not-terminal", getOv.Pos(), "a first candidate (the predecessor) that does not overlap does not end the search", "getOverlaps stops at the first region that does not overlap, even when that is the predecessor of the search key: regions after it that do overlap stay in the cache next to the new region")
-	}
-
-	// ---- R5 ---------------------------------------------------------------
-	c.StartRule("R5", "the three discoverers treat (overlaps, replaced) alike", 3)
-	for _, nm := range []string{"findRegion", "findAllRegions", "establishRegion"} {
-		fn := c.Anchor("", "client", nm)
-		if fn == nil {
-			continue
-		}
-		for _, call := range kit.Calls(fn, kit.M("", "*keyRegionCache", "put")) {
-			ov := kit.ExtractOf(call.Value(), 0)
-			repl := kit.ExtractOf(call.Value(), 1)
-			newReg := call.Common().Args[1]
-			if ov == nil || repl == nil {
-				c.Bad(fn, "put-results", call.Pos(), "the results of regions.put are ignored", "")
-				continue
-			}
-			// every overlap goes to clients.del on the replaced edge
-			delOK := false
-			for _, d := range kit.Calls(fn, kit.M("", "*clientRegionCache", "del")) {
-				if l, ok := kit.Root(d.Common().Args[1]).(*ssa.UnOp); ok {
-					if ia, ok := l.X.(*ssa.IndexAddr); ok && ia.X == ov {
-						if _, isR := rangeOfIndex(ia.Index); isR {
-							for _, f := range kit.FactsAt(d.Block()) {
-								if f.Cond == repl && f.Pol {
-									delOK = true
-								}
-							}
-						}
-					}
-				}
-			}
-			c.Check(delOK, fn, "overlaps-detached", call.Pos(), "on replaced, every overlap is removed from the connection cache", "evicted regions are not removed from the connection cache (their connection keeps them in its region set)")
-			// on !replaced the new region is not established
-			var iff *ssa.If
-			for _, r := range kit.Referrers(repl) {
-				if i, ok := r.(*ssa.If); ok {
-					iff = i
-				}
-			}
-			good := iff != nil
-			if good {
-				e := kit.PathFromBlock(kit.SuccOnFalse(iff), kit.PathQuery{Target: func(x ssa.Instruction) bool {
-					switch y := x.(type) {
-					case *ssa.Go:
-						return strings.HasSuffix(kit.CalleeName(y), "establishRegion") && kit.Same(y.Call.Args[1], newReg)
-					case *ssa.Call:
-						n := kit.CalleeName(y)
-						return (n == hrpcRI+"SetClient" || n == hrpcRC+"Dial") && false
-					}
-					return false
-				}, SkipEdge: func(from, to *ssa.BasicBlock) bool {
-					// do not wrap around a loop back into the replaced edge
-					return to == iff.Block() || to.Dominates(iff.Block())
-				}})
-				good = e == nil
-			}
-			c.Check(good, fn, "not-replaced-not-used", call.Pos(), "when the cache kept its own regions the looked-up region is not established", "a region that lost against the cache is still established: two region objects for overlapping ranges are live")
-		}
 	}
 }
